@@ -980,18 +980,6 @@ def Act.noD10 (s : St) : Act → Bool
     | none => true
   | _ => true
 
-/-- the manifest `Sync` of a commit does not fail (the second shape of D10: the record is in the file, durable or
-    not, the commit is reported as failed; `C08.fault_safe_full_partial` does not cover it) -/
-def Act.noSyncFault (s : St) : Act → Bool
-  | .job _ o =>
-    match s.job with
-    | some j =>
-      match j.pc with
-      | .sync => o == .ok
-      | _ => true
-    | none => true
-  | _ => true
-
 /-- **D26 excluded**: `SetMeta` does not fail after it took effect -/
 def Act.noD26 (s : St) : Act → Bool
   | .job _ o =>
